@@ -124,3 +124,121 @@ def part_lists(alphabet=("a", "*", "?", "\\", "\\*", "ä", "%", ""), specials=("
     for n in range(max_len + 1):
         for combo in itertools.product(atoms, repeat=n):
             yield list(combo)
+
+
+# ------------------------------------------------------------------ atoms: the meaning of a Sigma string (C05 spec A.1)
+_Atom = None
+
+
+def AtomSort():
+    global _Atom
+    if _Atom is None:
+        d = z3.Datatype("Atom")
+        d.declare("Lit", ("ch", z3.StringSort()))      # one literal character
+        d.declare("WM")
+        d.declare("WS")
+        d.declare("PH", ("name", z3.StringSort()))
+        _Atom = d.create()
+    return _Atom
+
+
+def atoms_sort():
+    return z3.SeqSort(AtomSort())
+
+
+def lits(s):
+    """Lit atom per character of s"""
+    return fn("lits", z3.StringSort(), atoms_sort())(s)
+
+
+def lits_nil():
+    return lits(z3.StringVal("")) == z3.Empty(atoms_sort())
+
+
+def lits_snoc(x, c):
+    """definition of lits from the right: for a one-character string c"""
+    return lits(z3.Concat(x, c)) == z3.Concat(lits(x), z3.Unit(AtomSort().Lit(c)))
+
+
+def lits_one(c):
+    return lits(c) == z3.Unit(AtomSort().Lit(c))
+
+
+def part_atoms(p):
+    P, A = PartSort(), AtomSort()
+    return z3.If(P.is_PStr(p), lits(P.str(p)), z3.If(p == P.PWM, z3.Unit(A.WM), z3.If(p == P.PWS, z3.Unit(A.WS), z3.Unit(A.PH(P.name(p))))))
+
+
+def atoms(ps):
+    """atoms of a part list (abstraction function)"""
+    return fn("atoms", parts_sort(), atoms_sort())(ps)
+
+
+def atoms_nil():
+    return atoms(z3.Empty(parts_sort())) == z3.Empty(atoms_sort())
+
+
+def atoms_snoc(ps, p):
+    return atoms(z3.Concat(ps, z3.Unit(p))) == z3.Concat(atoms(ps), part_atoms(p))
+
+
+def atoms_cons(p, ps):
+    return atoms(z3.Concat(z3.Unit(p), ps)) == z3.Concat(part_atoms(p), atoms(ps))
+
+
+def sp(esc, s, escape):
+    """Sigma source semantics: atoms denoted by the unread text s, given the escape state (spec A.1)"""
+    return fn("sp", z3.BoolSort(), z3.StringSort(), z3.BoolSort(), atoms_sort())(esc, s, escape)
+
+
+def sp_nil(esc, escape):
+    A = AtomSort()
+    return sp(esc, z3.StringVal(""), escape) == z3.If(esc, z3.Unit(A.Lit(z3.StringVal("\\"))), z3.Empty(atoms_sort()))
+
+
+def sp_cons(esc, c, rest, escape):
+    """defining equation for a one-character string c followed by rest"""
+    A = AtomSort()
+    S = z3.StringVal
+    special = z3.Or(c == S("*"), c == S("?"), c == S("\\"))
+    tail = sp(z3.BoolVal(False), rest, escape)
+    rhs = z3.If(esc,
+                z3.If(special, z3.Concat(z3.Unit(A.Lit(c)), tail), z3.Concat(z3.Unit(A.Lit(S("\\"))), z3.Unit(A.Lit(c)), tail)),
+                z3.If(z3.And(c == S("\\"), escape), sp(z3.BoolVal(True), rest, escape),
+                      z3.If(c == S("*"), z3.Concat(z3.Unit(A.WM), tail), z3.If(c == S("?"), z3.Concat(z3.Unit(A.WS), tail), z3.Concat(z3.Unit(A.Lit(c)), tail)))))
+    return sp(esc, z3.Concat(c, rest), escape) == rhs
+
+
+def sp_native(s, escape=True):
+    """native twin of sp(False, s, escape): list of ('L', ch) | 'WM' | 'WS'"""
+    out, esc = [], False
+    for c in s:
+        if esc:
+            out += [("L", c)] if c in "*?\\" else [("L", "\\"), ("L", c)]
+            esc = False
+        elif c == "\\" and escape:
+            esc = True
+        elif c == "*":
+            out.append("WM")
+        elif c == "?":
+            out.append("WS")
+        else:
+            out.append(("L", c))
+    if esc:
+        out.append(("L", "\\"))
+    return out
+
+
+def atoms_native(parts):
+    from sigma.types import SpecialChars
+    out = []
+    for p in parts:
+        if isinstance(p, str):
+            out += [("L", c) for c in p]
+        elif p is SpecialChars.WILDCARD_MULTI:
+            out.append("WM")
+        elif p is SpecialChars.WILDCARD_SINGLE:
+            out.append("WS")
+        else:
+            out.append(("PH", p.name))
+    return out
